@@ -431,7 +431,7 @@ type c08Plan struct {
 func runC08(seed int64, tier string, out string) {
 	rnd := rand.New(rand.NewSource(seed))
 	meta := newMeta("C08", seed)
-	meta.Rule = "fault matrix: statement kind (UPDATE / INSERT VALUES / INSERT SELECT / DELETE / REPLACE / CREATE TABLE / ALTER ADD / DROP / RENAME) x failure kind (division by zero in a SET / VALUES / WHERE / DEFAULT / source row, wrong row length in the K-th VALUES row, unknown field, ambiguous update, failing sub-query, duplicate column, key not set, file exists, cancellation - by a timer and, for a list of single-table statements that are the first to load their table and of two-table UPDATE / DELETE statements over files and temporary tables, at every single point where the statement looks at its context) x position K of the failing row (first / middle / last; every row in the thorough tier for tables up to 8 rows) x table kind (file / temporary) x state before (not loaded / loaded by SELECT / changed, uncommitted / changed, committed / altered; all five for failures that do not depend on a row; CREATE TABLE also of a file created earlier in the same transaction). One interactive Transaction per case; after every step every visible table is read. Distinct = distinct (statement, failure, K, n, table kind, state before) tuples whose statement really returned an error."
+	meta.Rule = "fault matrix: statement kind (UPDATE / INSERT VALUES / INSERT SELECT / DELETE / REPLACE / CREATE TABLE / ALTER ADD / DROP / RENAME) x failure kind (division by zero in a SET / VALUES / WHERE / DEFAULT / source row, wrong row length in the K-th VALUES row, unknown field, ambiguous update, failing sub-query, duplicate column, key not set, file exists, cancellation - by a timer and, for a list of single-table statements that are the first to load their table and of two-table UPDATE / DELETE statements over files and temporary tables, at every single point where the statement looks at its context; refused ALTER TABLE .. SET statements on JSON / JSONL / CSV / LTSV tables followed by a change of format and COMMIT, compared byte for byte with the same session without the refused statement) x position K of the failing row (first / middle / last; every row in the thorough tier for tables up to 8 rows) x table kind (file / temporary) x state before (not loaded / loaded by SELECT / changed, uncommitted / changed, committed / altered; all five for failures that do not depend on a row; CREATE TABLE also of a file created earlier in the same transaction). One interactive Transaction per case; after every step every visible table is read. Distinct = distinct (statement, failure, K, n, table kind, state before) tuples whose statement really returned an error."
 	w := &txnShard{dir: out, prop: "C08", max: 150, meta: meta, caseType: "c08case", checkFn: "check_c08",
 		header: fmt.Sprintf(txnShardHeader, "Csvq.Harness.H08")}
 
@@ -620,6 +620,7 @@ func runC08(seed int64, tier string, out string) {
 		c08Cancel(rnd, meta, i)
 	}
 	c08Countdown(meta, tier)
+	c08Attributes(meta)
 	c08CopyShape(meta)
 	meta.Distinct = len(seen)
 	meta.write(out)
